@@ -291,6 +291,10 @@ impl Prop for ModelProg {
                     cmds.push(gen::Cmd::Cont);
                 }
             }
+            // the same command again without an edit in between (what the trace remembers must not leak)
+            if rng.chance(1, 3) {
+                cmds.push(gen::Cmd::Run(None));
+            }
             if rng.chance(1, 3) {
                 cmds.push(gen::Cmd::Troff);
                 cmds.push(gen::Cmd::Run(Some(*rng.pick(&labels))));
